@@ -76,6 +76,20 @@ def loader_atomicity(ctx):
     n = 150 if ctx["tier"] == "quick" else 3000
     rc, so, se = C.sh([C.PY, lx, "--seed", str(ctx["seed"]), "--n", str(n), "--mode", "atomicity", "--out", out],
                       env=C.env_for_impl("0"), timeout=3000)
+    if rc == 0:
+        # the same under "python -W error" (warnings are errors in many CI set-ups): the outcome of a load is still ParseError or success
+        out2 = os.path.join(C.WORK, "c12_loader_werror.json")
+        env2 = dict(C.env_for_impl("0"), PYTHONWARNINGS="error::UserWarning,error::RuntimeWarning,error::SyntaxWarning,error::FutureWarning")
+        rc2, so2, se2 = C.sh([C.PY, lx, "--seed", str(ctx["seed"] + 1), "--n", str(max(60, n // 3)), "--mode", "atomicity", "--out", out2], env=env2, timeout=3000)
+        if rc2 != 0:
+            return {"coverage": {"status": "harness error under -W error"},
+                    "violations": [{"what": "loader harness failed under PYTHONWARNINGS=error: " + (so2 + se2)[-400:], "identity": "harness-error-werror",
+                                    "replay_payload": {"error": (so2 + se2)[-2000:]}}]}
+        d2 = json.load(open(out2))
+        d1 = json.load(open(out))
+        d1["violations"] = d1["violations"] + [dict(v, what="(warnings as errors) " + v["what"]) for v in d2["violations"]]
+        d1["coverage"]["warnings_as_errors_cases"] = d2["coverage"].get("evaluations")
+        json.dump(d1, open(out, "w"))
     if rc != 0:
         return {"coverage": {"status": "harness error"},
                 "violations": [{"what": "loader harness failed: " + (so + se)[-400:], "identity": "harness-error",
